@@ -174,8 +174,10 @@ def tyKey : Ty → Bytes
   | .flt lo hi => [1, 0x74] ++ ekStr (Ty.flt lo hi).name ++ fltParams lo hi
   | .enum ci vals => [1, 0x74] ++ ekStr (Ty.enum ci vals).name ++ enumParams vals ++ (if ci then ekBool true else [])
   | .arr e lo hi =>
-      -- `ArrayType.Parameters()`: the element type unless it is Any, the size unless it is Integer[0]
-      [1, 0x74] ++ ekStr [0x41, 0x72, 0x72, 0x61, 0x79] ++ (if e.isAny then [] else frame (tyKey e)) ++
+      -- `ArrayType.Parameters()`: the element type unless it is Any (kept for the size [0,0]: `Array[0, 0]` is the
+      -- type of the empty array, whose element type is Unit), the size unless it is Integer[0]
+      [1, 0x74] ++ ekStr [0x41, 0x72, 0x72, 0x61, 0x79] ++
+        (if e.isAny ∧ ¬ (lo = 0 ∧ hi = 0) then [] else frame (tyKey e)) ++
         (if lo = 0 ∧ hi = maxInt then [] else sizeParams lo hi)
   | .var ts => [1, 0x74] ++ ekStr [0x56, 0x61, 0x72, 0x69, 0x61, 0x6e, 0x74] ++ tyKeys ts
   | .tup ts size =>
@@ -415,7 +417,9 @@ def mkVar : List Ty → Ty
 
 def lowerByte (b : UInt8) : UInt8 := if 0x41 ≤ b ∧ b ≤ 0x5a then b + 0x20 else b
 
-/-- `NewEnumType`: values are lower-cased when case-insensitive (ASCII only in the model; the generator keeps to ASCII) -/
-def mkEnum (ci : Bool) (vals : List Bytes) : Ty := .enum ci (if ci then vals.map (·.map lowerByte) else vals)
+/-- `NewEnumType`: no values → the default Enum (whatever the flag); values are lower-cased when case-insensitive
+    (ASCII only in the model; the generator keeps to ASCII) -/
+def mkEnum (ci : Bool) (vals : List Bytes) : Ty :=
+  if vals.isEmpty then .enum false [] else .enum ci (if ci then vals.map (·.map lowerByte) else vals)
 
 end Pcore.ValueEq
